@@ -510,6 +510,7 @@ def main():
     items.append((2, 2, 'nu', (1, 2), False, 0, 4, None))
     items.append((2, 2, 'nu', (1, 1), True, 0, 4, None, True))          # density gradient through the keyword n0deriv
     items.append((2, 2, 'nu', (2, 1), False, 0, 3, None))
+    items.append((2, 2, 'nu', (3, 1), True, 1, 3, None))                # three theta processes, one mode each; a solve for another density first
     items.append((1, 2, 'nu', (1, 1), True, 0, 12, None))               # twelve theta points: modes up to |m| = 5 and the Nyquist mode -6
     if not quick:
         for chi in (0, 1):
@@ -527,6 +528,23 @@ def main():
             items.append((1, 2, 'nu', (1, 1), True, chi, 2, None))
         items.append((3, 3, 'cu', (2, 1), False, 0, 4, None))
         items.append((2, 2, 'nu', (3, 1), False, 0, 3, None))
+    # concrete part: theta counts whose twiddle factors are outside Q(i, sqrt 3) -- the real float pipeline (distributed, after a
+    # solve for another density on the same solver) against the independent mode-by-mode reference in floats
+    fitems = [(2, 2, 'nu', (3, 1), True, 1, 5, None), (1, 3, 'nu', (4, 1), True, 1, 5, None), (2, 2, 'nu', (3, 1), False, 0, 7, None)]
+    if not quick:
+        fitems += [(2, 2, 'nu', (3, 1), True, 0, 5, None), (1, 3, 'nu', (4, 1), False, 0, 7, None), (2, 2, 'nu', (2, 2), True, 1, 9, None),
+                   (3, 2, 'cu', (3, 1), True, 1, 10, None), (2, 2, 'nu', (3, 1), True, 1, 16, None)]
+    for it_ in fitems:
+        fr = H.worker_result()
+        fr['obligations'] += 1
+        prob = H.in_child(float_replay, m, ps, it_)          # in a child: the float run must not leave anything behind for the exact items
+        if prob:
+            fr['violations'].append(('qn:float', '%s (float pipeline, ntheta = %d on process grid %s)' % (prob, it_[6], list(it_[3])), dict(kind='qn', item=[str(x) for x in it_[:7]], concrete=prob)))
+        else:
+            fr['discharged'] += 1
+            fr['nontrivial'].append('qn-float|%r' % (it_[:7],))
+        run.merge(fr)
+    run.sections['float_pipeline_items'] = [str(x[:7]) for x in fitems]
     run.merge(modes_item(64 if quick else 600))
     run.sections['mode_number_table'] = 'theta counts 1..%d' % (64 if quick else 600)
     cn = CANARIES[0]
